@@ -65,18 +65,21 @@ Definition possible (ts : list vtype) (a o : N) : bool :=
   | _, _ => false
   end.
 
-(* the subtype relation of the GraphQL specification (covariant result types) *)
-Inductive subtype (ts : list vtype) : tref -> tref -> Prop :=
-| st_refl t : subtype ts t t
-| st_nonnull a b : subtype ts a b -> subtype ts (TNonNull a) (TNonNull b)
-| st_nonnull_l a b : is_non_null b = false -> subtype ts a b -> subtype ts (TNonNull a) b
-| st_list a b : subtype ts a b -> subtype ts (TList a) (TList b)
-| st_possible o a : possible ts a o = true -> subtype ts (TNamed o) (TNamed a).
+(* the subtype relation of the GraphQL specification (covariant result types),
+   over a given possible-type relation poss abstract object *)
+Inductive subtype (poss : N -> N -> bool) : tref -> tref -> Prop :=
+| st_refl t : subtype poss t t
+| st_nonnull a b : subtype poss a b -> subtype poss (TNonNull a) (TNonNull b)
+| st_nonnull_l a b : is_non_null b = false -> subtype poss a b -> subtype poss (TNonNull a) b
+| st_list a b : subtype poss a b -> subtype poss (TList a) (TList b)
+| st_possible o a : poss a o = true -> subtype poss (TNamed o) (TNamed a).
 
-(* object field list ofs satisfies interface field jf *)
-Definition implements_field (ts : list vtype) (ofs : list vfield) (jf : vfield) : Prop :=
+(* object field list ofs satisfies interface field jf: the field is there, its
+   type is a subtype, every interface argument is there with the identical type,
+   and additional arguments are not required *)
+Definition implements_field (poss : N -> N -> bool) (ofs : list vfield) (jf : vfield) : Prop :=
   exists f, find_field (vf_name jf) ofs = Some f
-    /\ subtype ts (vf_type f) (vf_type jf)
+    /\ subtype poss (vf_type f) (vf_type jf)
     /\ (forall an at', In (an, at') (vf_args jf) -> assoc_name an (vf_args f) = Some at')
     /\ (forall an at', In (an, at') (vf_args f) -> assoc_name an (vf_args jf) = None -> is_non_null at' = false).
 
@@ -107,7 +110,7 @@ Record Consistent (V : view) : Prop := {
   cs_meta : forall n, In n meta_names -> In n (map vt_name (v_types V));
   (* every object really implements each interface it declares *)
   cs_implements : forall vt ifs fs i jf, In vt (v_types V) -> vt_def vt = VObject ifs fs -> In i ifs ->
-      In jf (fields_of_view (v_types V) i) -> implements_field (v_types V) fs jf;
+      In jf (fields_of_view (v_types V) i) -> implements_field (possible (v_types V)) fs jf;
   (* possible types: each once, exactly the declared ones, and IsPossibleType agrees *)
   cs_possible : forall vt, In vt (v_types V) -> (vkind_interface (vt_def vt) = true \/ exists ms, vt_def vt = VUnion ms) ->
       exists row row2, assocN (vt_id vt) (v_poss V) = Some row /\ assocN (vt_id vt) (v_isposs V) = Some row2
